@@ -18,7 +18,8 @@ MANIFEST = dict(
          "independently in python that also parses the real file bytes.",
     note="Trusted: Coq kernel+vm_compute, the hand transcription (checked by the correspondence on seeded histories), harness "
          "and runner glue. Reopen is a quiesced restart (all acknowledged saves have been carried out); the window between "
-         "acknowledgement and the write call is examined by C04. Records >= 2 MiB (several write/read calls) and disk "
+         "acknowledgement and the write call (crash points) is examined by C04 on the syscall journal (repaired: the "
+         "acknowledgement now follows the write). Records >= 2 MiB (several write/read calls) and disk "
          "errors are outside the model; UTF-8 validation of addresses is assumed to succeed on strings Rust wrote.",
     technique="Rocq proof (refinement by invariant over histories, codec round trip, permutation invariance) + "
               "model/implementation correspondence + independent oracle",
@@ -591,7 +592,7 @@ def run(chk, replay=None):
                                          stale_tails=sum(1 for x in nontrivial if x[0] == "stale-tail"),
                                          model_impl_mismatches=mism)
     chk.assumptions += [
-        "reopen = quiesced restart: every acknowledged save has been carried out (ack-before-write window: see C04)",
+        "reopen = quiesced restart: every acknowledged save has been carried out (crash points between acknowledgement and write: C04)",
         "one record is one write call and one read call (< 2 MiB); u64 fields; addresses are valid UTF-8",
         "HashMap iteration order is arbitrary: theorems quantify over every permutation; the correspondence compares "
         "decoded records and file lengths (bytes when at most one address)",
